@@ -566,3 +566,51 @@ func TestBlockedByAnotherModule(t *testing.T) {
 		}
 	})
 }
+
+// TestConfiguredCapacityHonoured: a concurrency rule with a configured parameter capacity above the built-in default of
+// 4000. One entry for a value stays in flight while more distinct values than the default - but fewer than the configured
+// capacity - come and go: the value's count is still there, a second entry for it is rejected (threshold 1), and after the
+// first one exits exactly one is admitted again.
+func TestConfiguredCapacityHonoured(t *testing.T) {
+	hx.Check(t, hx.N{Quick: 3, Thorough: 12}, func(t *rapid.T, c *hx.Case) {
+		hx.Reset(hx.Epoch)
+		capacity := int64(rapid.SampledFrom([]int{4500, 6000, 20001}).Draw(t, "capacity"))
+		others := 4001 + rapid.IntRange(0, int(capacity)-4100).Draw(t, "otherValues")
+		beh := hotspot.Reject
+		if rapid.Bool().Draw(t, "throttlingBehaviour") {
+			beh = hotspot.Throttling
+		}
+		if _, err := hotspot.LoadRules([]*hotspot.Rule{{ID: "big", Resource: "h", MetricType: hotspot.Concurrency, ControlBehavior: beh, ParamIndex: 0, Threshold: 1, ParamsMaxCapacity: capacity, SpecificItems: map[interface{}]int64{}}}); err != nil {
+			t.Fatalf("load: %v", err)
+		}
+		held, blk := sentinel.Entry("h", sentinel.WithArgs("hot"))
+		if blk != nil {
+			t.Fatalf("first entry blocked: %v", blk)
+		}
+		for i := 0; i < others; i++ {
+			e, b := sentinel.Entry("h", sentinel.WithArgs(i))
+			if b != nil {
+				t.Fatalf("value %d blocked: %v", i, b)
+			}
+			e.Exit()
+		}
+		c.Op("capacity %d, %d other values while one entry of the hot value is in flight", capacity, others)
+		if e, _ := sentinel.Entry("h", sentinel.WithArgs("hot")); e != nil {
+			e.Exit()
+			held.Exit()
+			t.Fatalf("configured capacity %d, %d other distinct values came and went (fewer than the capacity): a second entry for the value with one entry in flight was admitted under threshold 1 - its counter was dropped", capacity, others)
+		}
+		held.Exit()
+		e, b := sentinel.Entry("h", sentinel.WithArgs("hot"))
+		if b != nil {
+			t.Fatalf("after the only entry exited the value is still rejected: %v", b)
+		}
+		e2, _ := sentinel.Entry("h", sentinel.WithArgs("hot"))
+		e.Exit()
+		if e2 != nil {
+			e2.Exit()
+			t.Fatalf("two entries of the value in flight under threshold 1 after its first entry had exited: the exit was applied to a counter of its own")
+		}
+		c.NonTrivial()
+	})
+}
